@@ -2870,10 +2870,12 @@ func (p *Parser) ParseVarRef() (*VarRef, error) {
 				dtype = String
 			case "boolean":
 				dtype = Boolean
+			case "time":
+				dtype = Time
 			case "tag":
 				dtype = Tag
 			default:
-				return nil, newParseError(tokstr(tok, lit), []string{"float", "floattuple", "integer", "unsigned", "string", "boolean", "field", "tag"}, pos)
+				return nil, newParseError(tokstr(tok, lit), []string{"float", "floattuple", "integer", "unsigned", "string", "boolean", "time", "field", "tag"}, pos)
 			}
 		case FIELD:
 			dtype = AnyField
